@@ -1,8 +1,11 @@
 """adopt2.py [Cxx ...]: move confirmed round-2 seeded changes that the check catches into /verif/seeded/Cxx-(k+2)/"""
 import glob, json, os, re, shutil, sys
-pids = sys.argv[1:] or sorted(os.path.basename(p) for p in glob.glob("/verif/seeded/_incoming2/C*"))
+INC = os.environ.get("INC", "_incoming2")
+OFF = {"_incoming2": 2, "_incoming3": 5}[INC]
+RND = {"_incoming2": 2, "_incoming3": 3}[INC]
+pids = sys.argv[1:] or sorted(os.path.basename(p) for p in glob.glob("/verif/seeded/%s/C*" % INC))
 for pid in pids:
-    inc = "/verif/seeded/_incoming2/%s" % pid
+    inc = "/verif/seeded/%s/%s" % (INC, pid)
     for k in (1, 2, 3):
         tl, cf = os.path.join(inc, "try%d.log" % k), os.path.join(inc, "confirm%d.json" % k)
         if not (os.path.exists(tl) and os.path.exists(cf)):
@@ -20,13 +23,13 @@ for pid in pids:
         note = "caught by ./check %s (quick): " % pid
         note += (thm[0][:160] if thm else "proofs unaffected (change is outside the translated formulas)")
         note += " + failing inputs: " + (fin[0][len("FAILING INPUT: "):][:220] if fin else "none found (no-failing-input-found)")
-        dst = "/verif/seeded/%s-%d" % (pid, k + 2)
+        dst = "/verif/seeded/%s-%d" % (pid, k + OFF)
         os.makedirs(dst, exist_ok=True)
         shutil.copy(os.path.join(inc, "patch%d.diff" % k), os.path.join(dst, "patch.diff"))
         shutil.copy(os.path.join(inc, "demo%d.py" % k), os.path.join(dst, "demo.py"))
         meta = json.load(open(os.path.join(inc, "meta%d.json" % k)))
         meta["breaks_property"] = pid
-        meta["round"] = 2
+        meta["round"] = RND
         meta["confirmed_by_me"] = dict(how="scratch worktree /tmp/wt2/%s at /repo HEAD: demo on clean tree, git apply patch, demo again, 152 baseline tests (the 5 baseline-failing tests deselected), revert" % pid, **conf)
         meta["check_result"] = note
         json.dump(meta, open(os.path.join(dst, "meta.json"), "w"), indent=1)
